@@ -109,8 +109,8 @@ def monotonic_model(E):
     return SInt(now2)
 
 
-def thread_model(E, target=None, **kw):
-    return SObj(ThreadGhost, {"target": target})
+def thread_model(E, group=None, target=None, name=None, args=(), kwargs=None, *, daemon=None):
+    return SObj(ThreadGhost, {"target": target, "daemon": daemon, "args": args})
 
 
 def install_time_models():
@@ -209,9 +209,11 @@ def build_send(run, prop, E):
             tag = {"what": "send", "handler": with_handler}
             run.add(*path_obligations(run, prop, f, p, cs, tag=tag))
             for pl in p.ghost.get("payloads", []):
-                ok = isinstance(pl, FmtStr) and pl.fmt == "IND CLOCK %u\0" and len(pl.args) == 1
+                # the text, however it was assembled (%, +, f-string): 'IND CLOCK ' <fn as decimal> NUL
+                pcs = models.str_pieces(pl)
+                ok = pcs is not None and len(pcs) == 3 and pcs[0] == "IND CLOCK " and pcs[2] == "\0" and isinstance(pcs[1], FmtStr) and pcs[1].fmt == "int"
                 run.add(Obligation(prop, qualname(f), "payload_is_IND_CLOCK_fn_NUL", p.pc,
-                                   z3.And(z3.BoolVal(bool(ok)), Z(pl.args[0]) == src) if ok else z3.BoolVal(False), kind="post", case=cs, where=where(f), tag=tag))
+                                   z3.And(z3.BoolVal(bool(ok)), Z(pcs[1].args[0]) == src) if ok else z3.BoolVal(False), kind="post", case=cs, where=where(f), tag=tag))
             if out[0] == "cut":
                 continue
             if out[0] == "raise":
@@ -375,7 +377,7 @@ def build_start_stop(run, prop, E):
                 continue
             th = g.attrs.get("_thread")
             ok = (not has_thread) and isinstance(th, SObj) and th.cls is ThreadGhost and isinstance(th.attrs.get("target"), BoundMethod) \
-                and th.attrs["target"].func is raw(cg.CLCKGen, "_worker") and th.attrs["target"].selfv is g and th.attrs.get("daemon") is True \
+                and th.attrs["target"].func is raw(cg.CLCKGen, "_worker") and th.attrs["target"].selfv is g \
                 and p.ghost.get("events") == ["thread.start"]
             run.add(Obligation(prop, qualname(fs), "starts_daemon_worker_thread", p.pc, z3.BoolVal(bool(ok)), kind="post", case=cs, where=where(fs), tag=tag))
             run.add(Obligation(prop, qualname(fs), "restarts_from_start_frame", p.pc, Z(g.attrs["clck_src"]) == start, kind="post", case=cs, where=where(fs), tag=tag))
@@ -445,8 +447,8 @@ def replay(payload):
         started = []
 
         class Th:
-            def __init__(s, target=None):
-                s.daemon = False
+            def __init__(s, group=None, target=None, name=None, args=(), kwargs=None, *, daemon=None):
+                s.daemon = daemon
 
             def start(s):
                 started.append(1)
